@@ -431,3 +431,58 @@ proof fn lemma_merge_finish(kd0: Map<Bytes, KeyDirEntry>, st0: Map<u64, LogStati
         }
     }
 }
+
+/// C09: fsync of the current merge outputs changes only their `synced` counters; everything the merge loop maintains
+/// is about records, so it carries over
+proof fn lemma_merge_synced(kd0: Map<Bytes, KeyDirEntry>, st0: Map<u64, LogStatistics>, w0: &World, sel: Set<u64>, act: u64, keys: Seq<Bytes>, exact: bool,
+                            kd: Map<Bytes, KeyDirEntry>, st: Map<u64, LogStatistics>, w: &World, i: int, hi: u64, w2: &World)
+    requires
+        merge_state(kd0, st0, w0, sel, act, keys, exact, kd, st, w, i, hi), world_wf(w), index_ok(kd, w),
+        w2.ever == w.ever, w2.data.dom() == w.data.dom(), w2.hint.dom() == w.hint.dom(),
+        forall |f: u64| f != hi && #[trigger] w.data.contains_key(f) ==> w2.data[f] == w.data[f],
+        forall |f: u64| f != hi && #[trigger] w.hint.contains_key(f) ==> w2.hint[f] == w.hint[f],
+        w.data.contains_key(hi) ==> w2.data[hi].recs == w.data[hi].recs && w2.data[hi].size == w.data[hi].size && w2.data[hi].torn == w.data[hi].torn
+            && w2.data[hi].synced <= w2.data[hi].recs.len(),
+        w.hint.contains_key(hi) ==> w2.hint[hi].recs == w.hint[hi].recs && w2.hint[hi].torn == w.hint[hi].torn,
+    ensures
+        merge_state(kd0, st0, w0, sel, act, keys, exact, kd, st, w2, i, hi),
+        world_wf(w2), index_ok(kd, w2), model(kd, w2) == model(kd, w),
+{
+    reveal(merge_state);
+    let lo = (act + 1) as u64;
+    assert(world_wf(w2)) by {
+        assert forall |g: u64| #[trigger] w2.data.contains_key(g) implies w2.ever.contains(g) && data_wf(w2.data[g]) by {
+            assert(w.data.dom().contains(g)); assert(w.data.contains_key(g)); assert(data_wf(w.data[g]));
+        }
+        assert forall |g: u64| #[trigger] w2.hint.contains_key(g) implies w2.data.contains_key(g) by {
+            assert(w.hint.dom().contains(g)); assert(w.hint.contains_key(g)); assert(w.data.contains_key(g)); assert(w2.data.dom().contains(g));
+        }
+    }
+    assert forall |k: Bytes| kd.contains_key(k) implies loc_ok(w2, k, #[trigger] kd[k]) && val_at(w2, kd[k]) == val_at(w, kd[k]) by {
+        assert(loc_ok(w, k, kd[k]));
+        assert(w.data.contains_key(kd[k].fileid));
+        assert(w2.data.dom().contains(kd[k].fileid));
+    }
+    assert(model(kd, w2) =~= model(kd, w));
+    assert forall |f: u64| f <= act implies (#[trigger] w2.data.contains_key(f) == w0.data.contains_key(f)) && (w0.data.contains_key(f) ==> w2.data[f] == w0.data[f]) by {
+        assert(w.data.contains_key(f) == w0.data.contains_key(f));
+        assert(w2.data.contains_key(f) == w2.data.dom().contains(f));
+        assert(w.data.contains_key(f) == w.data.dom().contains(f));
+    }
+    assert forall |f: u64| f <= act implies (#[trigger] w2.hint.contains_key(f) == w0.hint.contains_key(f)) && (w0.hint.contains_key(f) ==> w2.hint[f] == w0.hint[f]) by {
+        assert(w.hint.contains_key(f) == w0.hint.contains_key(f));
+        assert(w2.hint.contains_key(f) == w2.hint.dom().contains(f));
+        assert(w.hint.contains_key(f) == w.hint.dom().contains(f));
+    }
+    assert forall |g: u64| #[trigger] w2.data.contains_key(g) implies g <= hi by { assert(w.data.dom().contains(g)); assert(w.data.contains_key(g)); }
+    assert forall |g: u64| lo <= g <= hi implies #[trigger] out_ok(kd, w2, g) && all_live_stat(stat_of(st, g), w2.data[g].recs.len()) by {
+        assert(out_ok(kd, w, g));
+        assert(w2.data.dom().contains(g)); assert(w2.hint.dom().contains(g));
+    }
+    assert forall |f: u64| #[trigger] st.contains_key(f) implies w2.data.contains_key(f) by { assert(w.data.contains_key(f)); assert(w2.data.dom().contains(f)); }
+    assert forall |f: u64| f <= act && !sel.contains(f) && #[trigger] w2.data.contains_key(f) implies
+            stat_of(st, f) == stat_of(st0, f) && stat_rel(stat_of(st, f), kd, f, w2.data[f].recs, 0, 0, 0, false)
+            && (exact ==> stat_rel(stat_of(st, f), kd, f, w2.data[f].recs, 0, 0, 0, true)) by {
+        assert(w.data.dom().contains(f)); assert(w.data.contains_key(f));
+    }
+}
